@@ -332,3 +332,60 @@ def c16_pretty_history(e):
         if len(out) != 1 or out[0].plain != fresh:
             return False
     return True
+
+
+# --- a traversal abandoned by an exception leaves nothing behind (P) -------------------------------------------------------------
+class _BadFactory:
+    """A default_factory whose repr raises (pretty_repr of the defaultdict then raises: the fault point)."""
+
+    def __call__(self):
+        return 0
+
+    def __repr__(self):
+        raise ValueError("no repr")
+
+
+@symx("C16-after-failed-traversal", timeout=300, kind="P", functions=F_P,
+      bounds="containers (list / dict / tuple-in-list, solver-chosen) that hold, at a solver-chosen depth 1..3, a defaultdict whose "
+             "default_factory has a raising repr, or that are nested deeper than the recursion limit allows: pretty_repr raises; the "
+             "offending item is then removed and the SAME container objects are formatted again at width 1..30: the result evaluates "
+             "back to the value and equals what a structurally equal fresh value gives",
+      outside="other fault points (to_repr swallows ordinary leaf repr errors)")
+def c16_after_failure(e):
+    import sys
+    shape = int(e.mk("shape", 0, 2))
+    depth = int(e.mk("depth", 1, 3))
+    fault = int(e.mk("fault", 0, 1))
+    w = int(e.mk("max_width", 1, 30))
+    inner = [1, 2]
+    holder = inner
+    chain = [inner]
+    for _ in range(depth - 1):
+        holder = [holder, "x"] if shape != 1 else {"k": holder}
+        chain.append(holder)
+    if fault == 0:
+        bad = defaultdict(_BadFactory(), {"a": 1})
+    else:
+        bad = []
+        cur = bad
+        for _ in range(sys.getrecursionlimit() * 2):
+            nxt = []
+            cur.append(nxt)
+            cur = nxt
+    inner.append(bad)
+    top = chain[-1] if shape != 2 else [tuple(chain[-1:])]
+    try:
+        pretty_repr(top, max_width=w)
+        failed = False
+    except (ValueError, RecursionError):
+        failed = True
+    inner.pop()
+    if fault == 1:
+        del cur, nxt
+        # unlink the deep list iteratively so that its deallocation cannot overflow the C stack
+        while bad:
+            bad = bad.pop()
+    got = pretty_repr(top, max_width=w)
+    import copy
+    fresh = pretty_repr(copy.deepcopy(top), max_width=w)
+    return failed and got == fresh and eval(got) == top
